@@ -1,0 +1,183 @@
+//go:build verif
+
+package pmtiles
+
+// Exported thin wrappers around unexported internals, compiled only with -tags verif.
+// Used by the verification harness (in-process correspondence checks); add-only.
+
+import (
+	"bufio"
+	"bytes"
+	"io"
+	"log"
+	"os"
+
+	"github.com/RoaringBitmap/roaring/roaring64"
+	"github.com/paulmach/orb"
+)
+
+func VerifDeserializeEntriesChecked(data []byte, compression Compression) ([]EntryV3, error) {
+	return deserializeEntriesChecked(bytes.NewBuffer(data), compression)
+}
+
+func VerifFindTile(entries []EntryV3, tileID uint64) (EntryV3, bool) {
+	return findTile(entries, tileID)
+}
+
+func VerifBuildRootsLeaves(entries []EntryV3, leafSize int, compression Compression) ([]byte, []byte, int) {
+	return buildRootsLeaves(entries, leafSize, compression)
+}
+
+func VerifOptimizeDirectories(entries []EntryV3, targetRootLen int, compression Compression) ([]byte, []byte, int) {
+	return optimizeDirectories(entries, targetRootLen, compression)
+}
+
+// VerifRange mirrors srcDstRange.
+type VerifRange struct {
+	SrcOffset uint64
+	DstOffset uint64
+	Length    uint64
+}
+
+// VerifCopyDiscard mirrors copyDiscard.
+type VerifCopyDiscard struct {
+	Wanted  uint64
+	Discard uint64
+}
+
+// VerifPlan mirrors overfetchRange.
+type VerifPlan struct {
+	Rng          VerifRange
+	CopyDiscards []VerifCopyDiscard
+}
+
+func VerifReencodeEntries(dir []EntryV3) ([]EntryV3, []VerifRange, uint64, uint64, uint64) {
+	re, ranges, total, addressed, contents := reencodeEntries(dir)
+	out := make([]VerifRange, len(ranges))
+	for i, r := range ranges {
+		out[i] = VerifRange{r.SrcOffset, r.DstOffset, r.Length}
+	}
+	return re, out, total, addressed, contents
+}
+
+func VerifMergeRanges(ranges []VerifRange, overfetch float32) ([]VerifPlan, uint64) {
+	in := make([]srcDstRange, len(ranges))
+	for i, r := range ranges {
+		in[i] = srcDstRange{r.SrcOffset, r.DstOffset, r.Length}
+	}
+	l, total := MergeRanges(in, overfetch)
+	var out []VerifPlan
+	for e := l.Front(); e != nil; e = e.Next() {
+		or := e.Value.(overfetchRange)
+		p := VerifPlan{Rng: VerifRange{or.Rng.SrcOffset, or.Rng.DstOffset, or.Rng.Length}}
+		for _, cd := range or.CopyDiscards {
+			p.CopyDiscards = append(p.CopyDiscards, VerifCopyDiscard{cd.Wanted, cd.Discard})
+		}
+		out = append(out, p)
+	}
+	return out, total
+}
+
+func VerifMergeBudget(totalSize int, overfetch float32) int { return mergeBudget(totalSize, overfetch) }
+
+func VerifDegreesToE7(degrees float64) int32 { return degreesToE7(degrees) }
+
+func VerifBitmapMultiPolygon(zoom uint8, mp orb.MultiPolygon) (*roaring64.Bitmap, *roaring64.Bitmap) {
+	return bitmapMultiPolygon(zoom, mp)
+}
+
+func VerifGeneralizeOr(r *roaring64.Bitmap, minzoom uint8) { generalizeOr(r, minzoom) }
+
+// VerifResolver wraps the convert/cluster accumulator.
+type VerifResolver struct{ r *resolver }
+
+func VerifNewResolver(deduplicate bool, compress bool) *VerifResolver {
+	return &VerifResolver{newResolver(deduplicate, compress)}
+}
+func (v *VerifResolver) AddTileIsNew(tileID uint64, data []byte, runLength uint32) (bool, []byte) {
+	return v.r.AddTileIsNew(tileID, data, runLength)
+}
+func (v *VerifResolver) Entries() []EntryV3     { return v.r.Entries }
+func (v *VerifResolver) Offset() uint64         { return v.r.Offset }
+func (v *VerifResolver) AddressedTiles() uint64 { return v.r.AddressedTiles }
+func (v *VerifResolver) NumContents() uint64    { return v.r.NumContents() }
+
+func VerifFinalize(logger *log.Logger, v *VerifResolver, header HeaderV3, tmpfile *os.File, output string, jsonMetadata map[string]interface{}) (HeaderV3, error) {
+	return finalize(logger, v.r, header, tmpfile, output, jsonMetadata)
+}
+
+func VerifMbtilesToHeaderJSON(rows []string) (HeaderV3, map[string]interface{}, error) {
+	return mbtilesToHeaderJSON(rows)
+}
+
+func VerifSetZoomCenterDefaults(header *HeaderV3, entries []EntryV3) {
+	setZoomCenterDefaults(header, entries)
+}
+
+func VerifHeaderToJson(header HeaderV3) HeaderJson { return headerToJson(header) }
+
+func VerifHeaderToStringifiedJson(header HeaderV3) string { return headerToStringifiedJson(header) }
+
+func VerifParseTilePath(path string) (bool, string, uint8, uint32, uint32, string) {
+	return parseTilePath(path)
+}
+func VerifParseTilejsonPath(path string) (bool, string) { return parseTilejsonPath(path) }
+func VerifParseMetadataPath(path string) (bool, string) { return parseMetadataPath(path) }
+
+// VerifSyncBlock mirrors syncBlock.
+type VerifSyncBlock struct {
+	Start, Offset, Length, Hash uint64
+}
+
+func VerifSerializeSyncBlocks(w io.Writer, blocks []VerifSyncBlock) {
+	in := make([]syncBlock, len(blocks))
+	for i, b := range blocks {
+		in[i] = syncBlock{b.Start, b.Offset, b.Length, b.Hash}
+	}
+	serializeSyncBlocks(w, in)
+}
+
+func VerifDeserializeSyncBlocks(n int, data []byte) []VerifSyncBlock {
+	bs := deserializeSyncBlocks(n, bufio.NewReader(bytes.NewReader(data)))
+	out := make([]VerifSyncBlock, len(bs))
+	for i, b := range bs {
+		out[i] = VerifSyncBlock{b.Start, b.Offset, b.Length, b.Hash}
+	}
+	return out
+}
+
+func VerifMakeMultiRanges(ranges []VerifRange, baseOffset int64, maxHeaderBytes int) ([]string, [][]VerifRange) {
+	in := make([]srcDstRange, len(ranges))
+	for i, r := range ranges {
+		in[i] = srcDstRange{r.SrcOffset, r.DstOffset, r.Length}
+	}
+	mrs := makeMultiRanges(in, baseOffset, maxHeaderBytes)
+	var strs []string
+	var groups [][]VerifRange
+	for _, m := range mrs {
+		strs = append(strs, m.str)
+		var g []VerifRange
+		for _, r := range m.ranges {
+			g = append(g, VerifRange{r.SrcOffset, r.DstOffset, r.Length})
+		}
+		groups = append(groups, g)
+	}
+	return strs, groups
+}
+
+func VerifGenerateEtag(data []byte) string { return generateEtag(data) }
+
+func VerifIsRefreshRequiredCode(code int) bool { return isRefreshRequiredCode(code) }
+
+func VerifIsRefreshRequiredError(err error) bool { return isRefreshRequiredError(err) }
+
+// VerifNewMemoryBucket returns the in-memory backend over the given objects (the map is shared:
+// replacing an entry replaces the object).
+func VerifNewMemoryBucket(items map[string][]byte) Bucket { return mockBucket{items} }
+
+func VerifHeaderContentType(header HeaderV3) (string, bool) { return headerContentType(header) }
+func VerifHeaderExt(header HeaderV3) string                 { return headerExt(header) }
+func VerifCompressionToString(c Compression) (string, bool) { return compressionToString(c) }
+func VerifStringToCompression(s string) Compression         { return stringToCompression(s) }
+func VerifStringToTileType(s string) TileType               { return stringToTileType(s) }
+func VerifTileTypeToString(t TileType) string               { return tileTypeToString(t) }
